@@ -79,6 +79,16 @@ def gfSeq (w : Groups) (filters : List UFilter) (shared : Bool) : GF → List Re
     jObj [("collection", jColl res.1.collection), ("plan", jPlan res.2)] ::
       gfSeq w filters shared (if shared then res.1 else { filters := filters, collection := [] }) rs
 
+def oval (j : Json) : OVal :=
+  match strF j "t" with
+  | "handle" => .handle (natF j "h")
+  | "feats" => .feats (natsF j "ids")
+  | _ => .scalar (natF j "n")
+
+def fobj (j : Json) : FObj :=
+  { name := natF j "name", touched := false,
+    opts := (arrF j "opts").map (fun p => match asArr p with | [k, v] => (asNat k, oval v) | _ => (0, .scalar 0)) }
+
 def handle (op : String) (j : Json) : Json :=
   match op with
   | "history" =>
@@ -95,6 +105,9 @@ def handle (op : String) (j : Json) : Json :=
     match addFeatureLinks ls ((arrF j "feats").map feature) with
     | none => Json.null
     | some l => jNats l
+  | "callerAfter" =>
+    let h : Heap := (arrF j "heap").map fobj
+    jArr ((callerAfterCall (boolF j "perKey") (natF j "fuel") h (natsF j "roots")).map (fun o => Json.bool o.touched))
   | "gfSeq" =>
     let w : Groups := (arrF j "groups").map (fun g => (asArr g).map asNat)
     let filters := (arrF j "filters").map ufilter
